@@ -11,6 +11,8 @@ import (
 	"math/big"
 	"strings"
 
+	"github.com/wokdav/gopki/generator/db"
+
 	"verif/mc/drive"
 	"verif/mc/engine"
 	"verif/mc/refcfg"
@@ -40,6 +42,9 @@ type c01Case struct {
 	// history: a settled 3-tier chain, one operation on entity Ent, then a default run
 	Op  int `json:"op,omitempty"`
 	Ent int `json:"ent,omitempty"`
+	// optional second operation before the run (Op2 = index+1, 0 = none)
+	Op2  int `json:"op2,omitempty"`
+	Ent2 int `json:"ent2,omitempty"`
 }
 
 func acyclic(parent []int) bool {
@@ -126,6 +131,18 @@ func c01Enumerate(tier string, yield func(any)) {
 			}
 		}
 	}
+	// two operations before the run: every ordered pair
+	for op := range c01HistoryOps {
+		for ent := 0; ent < 3; ent++ {
+			for op2 := range c01HistoryOps {
+				for ent2 := 0; ent2 < 3; ent2++ {
+					for _, prof := range []bool{false, true} {
+						yield(&c01Case{Kind: "history", Op: op, Ent: ent, Op2: op2 + 1, Ent2: ent2, Profile: prof})
+					}
+				}
+			}
+		}
+	}
 	for _, o := range c01Origins {
 		for _, prof := range []bool{false, true} {
 			yield(&c01Case{Kind: "origin", Origin: o, Profile: prof})
@@ -163,7 +180,7 @@ func c01Exec(x *engine.Ctx, cc any) {
 }
 
 var c01HistoryOps = []string{"delete-artifact", "replace-by-key-only", "strip-certificate", "edit-subject", "strip-key", "change-key-algorithm",
-	"key-replaced-by-request+edit-child", "strip-key+edit-child+changed-only-run", "strip-key+delete-child"}
+	"key-replaced-by-request+edit-child", "strip-key+edit-child+changed-only-run", "strip-key+delete-child", "add-child"}
 
 // c01History: the directory is not fresh - one entity's artifact or config was touched since the
 // last run. After the next successful default run every certificate must again verify under the
@@ -190,52 +207,24 @@ func c01History(x *engine.Ctx, c *c01Case) {
 	}
 	w := g.W
 	strat := drive.Default
-	cfg := d.Certs[c.Ent]
-	art := ArtifactPath(cfg.Path)
-	pf := refx509.SplitPem(w.Files[art].Data)
-	switch c01HistoryOps[c.Op] {
-	case "delete-artifact":
-		w.Remove(art)
-	case "replace-by-key-only":
-		w.PutAt(art, FixtureKeyPEM("P-384-0"), 1) // an old file: older than everything else
-	case "strip-certificate":
-		w.Put(art, append([]byte("#HASH:"+*pf.HashLine+"\n"), refx509.EncodePem("PRIVATE KEY", pf.KeyDER)...))
-	case "edit-subject":
-		cfg.Subject += " renamed"
-		w.Put(cfg.Path, cfg.YAML())
-	case "strip-key":
-		w.Put(art, append([]byte("#HASH:"+*pf.HashLine+"\n"), refx509.EncodePem("CERTIFICATE", pf.CertDER)...))
-	case "change-key-algorithm":
-		cfg.KeyAlg = "P-521"
-		w.Put(cfg.Path, cfg.YAML())
-		w.Remove(art)
-	case "key-replaced-by-request+edit-child", "strip-key+edit-child+changed-only-run", "strip-key+delete-child":
-		// an issuer that keeps its certificate but has no private key any more, while something below it must be signed
-		if c.Ent == 2 {
-			x.Outcome("history: leaf has no child")
+	steps := [][2]int{{c.Op, c.Ent}}
+	if c.Op2 > 0 {
+		steps = append(steps, [2]int{c.Op2 - 1, c.Ent2})
+	}
+	for _, st := range steps {
+		ok, s2 := c01ApplyOp(d, w, names, st[0], st[1])
+		if !ok {
+			x.Outcome("history: operation not applicable in this state")
 			return
 		}
-		nb := append([]byte("#HASH:"+*pf.HashLine+"\n"), refx509.EncodePem("CERTIFICATE", pf.CertDER)...)
-		if c01HistoryOps[c.Op] == "key-replaced-by-request+edit-child" {
-			k, _ := refx509.ParsePKCS8(pf.KeyDER)
-			nb = append(nb, refx509.EncodePem("CERTIFICATE REQUEST", refx509.BuildCSR(k, "req", nil))...)
-		}
-		w.PutAt(art, nb, w.Files[art].Tick) // same mtime: only the key is gone
-		child := d.Certs[c.Ent+1]
-		if c01HistoryOps[c.Op] == "strip-key+delete-child" {
-			w.Remove(ArtifactPath(child.Path))
-		} else {
-			child.Subject += " renamed"
-			w.Put(child.Path, child.YAML())
-		}
-		if c01HistoryOps[c.Op] == "strip-key+edit-child+changed-only-run" {
-			strat = drive.Changed
+		if s2 != 0 {
+			strat = s2
 		}
 	}
 	g2 := &GenResult{W: w, Before: w.Clone(), RunStart: g.RunStart}
 	g2.Res = drive.Run(w, strat, nil)
 	g2.RunEnd = g.RunEnd + 5
-	x.Nontrivial(fmt.Sprintf("history %d %d %v", c.Op, c.Ent, c.Profile))
+	x.Nontrivial(fmt.Sprintf("history %d %d %d %d %v", c.Op, c.Ent, c.Op2, c.Ent2, c.Profile))
 	if g2.Res.Panic != "" {
 		x.Violation("C01/panic/"+g2.Res.PanicSite, g2.Res.Panic)
 		return
@@ -244,19 +233,86 @@ func c01History(x *engine.Ctx, c *c01Case) {
 		x.Outcome("history: run failed")
 		return
 	}
-	x.Outcome("history " + c01HistoryOps[c.Op])
+	opName := c01HistoryOps[c.Op]
+	if c.Op2 > 0 {
+		opName += " then " + c01HistoryOps[c.Op2-1]
+	}
+	x.Outcome("history " + opName)
 	for _, e := range d.Certs {
 		diffs, _, err := g2.CompareEntity(d, AliasOf(e), "")
 		if err != nil {
-			x.Violation("C01/history/no-certificate op="+c01HistoryOps[c.Op], err.Error())
+			x.Violation("C01/history/no-certificate op="+opName, err.Error())
 			continue
 		}
 		for _, df := range diffs {
 			if df.Owner == "C01" {
-				x.Violation("C01/history/"+strings.TrimPrefix(df.Class, "C01/")+" op="+c01HistoryOps[c.Op], fmt.Sprintf("after %s on %s and a default run, entity %s: %s", c01HistoryOps[c.Op], names[c.Ent], AliasOf(e), df.Detail))
+				x.Violation("C01/history/"+strings.TrimPrefix(df.Class, "C01/")+" op="+opName, fmt.Sprintf("after %s on %s (second operation on %s) and a default run, entity %s: %s", opName, names[c.Ent], names[c.Ent2], AliasOf(e), df.Detail))
 			}
 		}
 	}
+}
+
+// c01ApplyOp performs one history operation on entity ent of the settled chain.
+func c01ApplyOp(d *Dir, w *simfs.World, names []string, op, ent int) (ok bool, strat db.UpdateStrategy) {
+	cfg := d.Certs[ent]
+	art := ArtifactPath(cfg.Path)
+	name := c01HistoryOps[op]
+	if name == "add-child" {
+		n := fmt.Sprintf("added%d", len(d.Certs))
+		child := &refcfg.CertCfg{Path: n + ".yaml", Subject: "CN=" + n, KeyAlg: "P-256", Profile: cfg.Profile, Issuer: names[ent]}
+		d.Certs = append(d.Certs, child)
+		w.Put(child.Path, child.YAML())
+		return true, 0
+	}
+	if name == "edit-subject" {
+		cfg.Subject += " renamed"
+		w.Put(cfg.Path, cfg.YAML())
+		return true, 0
+	}
+	f := w.Files[art]
+	if f == nil {
+		return false, 0
+	}
+	pf := refx509.SplitPem(f.Data)
+	if pf.HashLine == nil || pf.CertDER == nil || pf.KeyDER == nil {
+		return false, 0
+	}
+	switch name {
+	case "delete-artifact":
+		w.Remove(art)
+	case "replace-by-key-only":
+		w.PutAt(art, FixtureKeyPEM("P-384-0"), 1) // an old file: older than everything else
+	case "strip-certificate":
+		w.Put(art, append([]byte("#HASH:"+*pf.HashLine+"\n"), refx509.EncodePem("PRIVATE KEY", pf.KeyDER)...))
+	case "strip-key":
+		w.Put(art, append([]byte("#HASH:"+*pf.HashLine+"\n"), refx509.EncodePem("CERTIFICATE", pf.CertDER)...))
+	case "change-key-algorithm":
+		cfg.KeyAlg = "P-521"
+		w.Put(cfg.Path, cfg.YAML())
+		w.Remove(art)
+	case "key-replaced-by-request+edit-child", "strip-key+edit-child+changed-only-run", "strip-key+delete-child":
+		// an issuer that keeps its certificate but has no private key any more, while something below it must be signed
+		if ent == 2 {
+			return false, 0
+		}
+		nb := append([]byte("#HASH:"+*pf.HashLine+"\n"), refx509.EncodePem("CERTIFICATE", pf.CertDER)...)
+		if name == "key-replaced-by-request+edit-child" {
+			k, _ := refx509.ParsePKCS8(pf.KeyDER)
+			nb = append(nb, refx509.EncodePem("CERTIFICATE REQUEST", refx509.BuildCSR(k, "req", nil))...)
+		}
+		w.PutAt(art, nb, f.Tick) // same mtime: only the key is gone
+		child := d.Certs[ent+1]
+		if name == "strip-key+delete-child" {
+			w.Remove(ArtifactPath(child.Path))
+		} else {
+			child.Subject += " renamed"
+			w.Put(child.Path, child.YAML())
+		}
+		if name == "strip-key+edit-child+changed-only-run" {
+			strat = drive.Changed
+		}
+	}
+	return true, strat
 }
 
 // c01CheckAll verifies the C01 relation for every entity of d in g's world.
@@ -563,7 +619,7 @@ func init() {
 	register(&engine.Check{
 		ID:          "C01",
 		Level:       "exploration",
-		Rule:        "(a) every rooted forest on <=3 (quick) / <=4 (thorough) entities x 3 alias/directory layouts x with/without a profile adding subjectKeyIdentifier+authorityKeyIdentifier hash; (b) issuer key algorithm (14) x subject key algorithm (6 representatives quick / 14 thorough) x signature algorithm (8 + omitted) two-tier worlds with fixture keys, the 14 x 9 self-signed roots, and a three-tier chain per issuer kind x 9; (c) 54 histories on a settled 3-tier chain (delete artifact / replace by an old key-only file / strip certificate / edit subject / strip key / change key algorithm / issuer key replaced by a request + child edited / issuer key stripped + child edited + generate-changed only / issuer key stripped + child artifact deleted, on each entity, with and without key-id profile) followed by a default run, after which every certificate must verify under its issuer's current certificate; (d) issuer artifact origin {earlier gopki run, foreign certificate with PrintableString / UTF8String non-ASCII / UTF8String for a printable value / IA5String e-mail / multi-valued RDN / TeletexString / PrintableString with & or * / BMPString / NumericString / empty value / mixed string types in one RDN}. Oracle per written certificate: signature verifies with the algorithm its signatureAlgorithm names under the SPKI of the issuer's current certificate file, issuer DN bytes = that certificate's subject DN bytes, hash key ids = SHA-1 of the respective key bits, child AKI = issuer SKI; misfit of algorithm and signing key => run fails and no certificate. non-trivial = distinct case executed",
+		Rule:        "(a) every rooted forest on <=3 (quick) / <=4 (thorough) entities x 3 alias/directory layouts x with/without a profile adding subjectKeyIdentifier+authorityKeyIdentifier hash; (b) issuer key algorithm (14) x subject key algorithm (6 representatives quick / 14 thorough) x signature algorithm (8 + omitted) two-tier worlds with fixture keys, the 14 x 9 self-signed roots, and a three-tier chain per issuer kind x 9; (c) 60 one-operation and all 1800 ordered two-operation histories on a settled 3-tier chain (add a child under the entity / delete artifact / replace by an old key-only file / strip certificate / edit subject / strip key / change key algorithm / issuer key replaced by a request + child edited / issuer key stripped + child edited + generate-changed only / issuer key stripped + child artifact deleted, on each entity, with and without key-id profile) followed by a default run, after which every certificate must verify under its issuer's current certificate; (d) issuer artifact origin {earlier gopki run, foreign certificate with PrintableString / UTF8String non-ASCII / UTF8String for a printable value / IA5String e-mail / multi-valued RDN / TeletexString / PrintableString with & or * / BMPString / NumericString / empty value / mixed string types in one RDN}. Oracle per written certificate: signature verifies with the algorithm its signatureAlgorithm names under the SPKI of the issuer's current certificate file, issuer DN bytes = that certificate's subject DN bytes, hash key ids = SHA-1 of the respective key bits, child AKI = issuer SKI; misfit of algorithm and signing key => run fails and no certificate. non-trivial = distinct case executed",
 		Bound:       map[string]string{"forest size": "quick<=3 thorough<=4"},
 		Assumptions: []string{"configurations with manipulations are C19's", "Go's crypto/ecdsa, crypto/rsa and the keybase brainpool curve parameters are trusted for verification"},
 		Budget:      budgets(quickBudget, thoroughBudget),
